@@ -23,11 +23,12 @@ structure Reviewed where
   meth : String
   kind : String
   expr : String
+  needs : List String := []   -- early-return conditions the argument relies on: each must dominate the site (`RunSite.doms`)
   why : String
 
 def Reviewed.covers (r : Reviewed) (s : RunSite) : Bool :=
   r.pkg == s.pkg && r.kind == s.kind && r.expr == s.expr && r.meth == s.meth &&
-    (r.recv == s.recv || (r.recv == "*" && s.recv != ""))
+    (r.recv == s.recv || (r.recv == "*" && s.recv != "")) && r.needs.all (s.doms.contains ·)
 
 def reviewedRun : List Reviewed := [
   { pkg := "x/crosschain/precompile", recv := "*", meth := "Run", kind := "assert", expr := "evm.StateDB.(evmtypes.ExtStateDB)",
@@ -37,15 +38,28 @@ def reviewedRun : List Reviewed := [
   { pkg := "x/staking/precompile", recv := "*", meth := "Run", kind := "assert", expr := "evm.StateDB.(types.ExtStateDB)",
     why := "as above, staking precompile" },
   { pkg := "x/crosschain/precompile", recv := "BridgeCoinAmountMethod", meth := "Run", kind := "index", expr := "md.GetDenomUnits()[0]",
+    needs := ["!has && pair.GetDenom() != fxtypes.DefaultDenom", "!has"],
     why := "reached only when `!has && denom != FX` is false after `_, has = HasDenomAlias(denom)`: either HasDenomAlias returned true (it checks len(md.DenomUnits) == 0 first) or the denomination is FX, whose metadata is written at genesis / by the erc20 registration with a base unit; GetDenomMetaData returned found; harness: bridgeCoinAmount over every registered token" },
   { pkg := "x/crosschain/types", meth := "ExternalAddrToStr", kind := "panic", expr := "panic(\"unrecognized cross chain name: \" + chainName)",
-    why := "called from hasOracle / isOracleOnline with args.Chain only after `router.GetRoute(args.Chain)` found a registered cross-chain keeper; every cross-chain module registers its external-address codec in the same init that names the module (RegisterExternalAddress), so a routed chain is always recognised; harness: both methods with every registered and many unregistered chain names" },
+    needs := ["in: !ok"],
+    why := "the panic of an unrecognised chain name; every call site reachable from a precompile Run is listed separately (kind callpanic) and reviewed there" },
+  { pkg := "x/crosschain/precompile", recv := "HasOracleMethod", meth := "Run", kind := "callpanic",
+    expr := "crosschaintypes.ExternalAddrToStr(args.Chain, args.ExternalAddress.Bytes())", needs := ["!has"],
+    why := "dominated by `router, has := GetRoute(args.Chain); if !has { return error }`: a routed chain is a registered cross-chain module, and every cross-chain module registers its external-address codec in the init that names it (RegisterExternalAddress), so the name is recognised; harness: both methods with every registered and many well-formed unregistered chain names" },
+  { pkg := "x/crosschain/precompile", recv := "IsOracleOnlineMethod", meth := "Run", kind := "callpanic",
+    expr := "crosschaintypes.ExternalAddrToStr(args.Chain, args.ExternalAddress.Bytes())", needs := ["!has"],
+    why := "as for hasOracle" },
+  { pkg := "x/crosschain/precompile", recv := "IsOracleOnlineMethod", meth := "Run", kind := "callpanic",
+    expr := "router.GetOracle(stateDB.Context(), oracleAddr)", needs := ["!has"],
+    why := "GetOracle's MustUnmarshal decodes bytes that only SetOracle wrote (store integrity); reached after the route and the oracle address were found" },
   { pkg := "x/crosschain/keeper", recv := "Keeper", meth := "GetOracle", kind := "must", expr := "k.cdc.MustUnmarshal(value, &oracle)",
+    needs := ["value == nil"],
     why := "decodes bytes that only SetOracle wrote with cdc.MustMarshal of the same type (store integrity, not input dependent)" },
   { pkg := "x/staking/precompile", meth := "decrementReferenceCount", kind := "panic", expr := "panic(\"cannot set negative reference count\")",
+    needs := ["in: historical.ReferenceCount == 0"],
     why := "copy of the SDK distribution keeper's invariant check: a delegator's starting info references a historical-rewards record whose count it incremented; state invariant of x/distribution, not reachable by choosing call data (C11 checks the share-transfer bookkeeping)" },
   { pkg := "x/staking/precompile", recv := "DelegationMethod", meth := "Run", kind := "div",
-    expr := "delegation.GetShares().MulInt(validator.GetTokens()).Quo(validator.GetDelegatorShares())",
+    expr := "delegation.GetShares().MulInt(validator.GetTokens()).Quo(validator.GetDelegatorShares())", needs := ["err != nil"],
     why := "reached only when GetDelegation found a delegation to that validator; the staking module keeps validator.DelegatorShares = sum of its delegations' (positive) shares, so the divisor is positive (same expression as the SDK's Validator.TokensFromShares)" }
 ]
 
